@@ -126,6 +126,89 @@ Example ex_feed :
   feed true [] [[81; 0; 0]; [0; 7; 104; 105]; [0; 88; 0; 0; 0; 4]] = ([FQuery [104; 105]; FTerminate], SNeed []).
 Proof. vm_compute. reflexivity. Qed.
 
+(** * The startup reference satisfies the property as well *)
+Theorem spec_startup_framing_thm b m rest :
+  spec_decode_startup b = OMsg m rest ->
+  exists frame, b = frame ++ rest /\ blen frame = startup_declared_len b /\ 8 <= startup_declared_len b.
+Proof.
+  destruct (bytes_case4 b) as [[Hs _]|(l0 & l1 & l2 & l3 & r & ->)].
+  { rewrite spec_decode_startup_short by assumption. discriminate. }
+  unfold startup_declared_len. cbn [startup_header].
+  cbn [spec_decode_startup].
+  destruct (Z.ltb_spec (s32 l0 l1 l2 l3) 8) as [|H8]; [discriminate|].
+  destruct (Z.ltb_spec (blen r) (s32 l0 l1 l2 l3 - 4)) as [|Hc]; [discriminate|].
+  set (n := Z.to_nat (s32 l0 l1 l2 l3 - 4)).
+  intros H.
+  assert (Hr : rest = skipn n r).
+  { destruct (firstn n r) as [|v0 [|v1 [|v2 [|v3 pbody]]]]; try discriminate.
+    destruct (s32 v0 v1 v2 v3 =? P_SSLRequestCode); [inversion H; reflexivity|].
+    destruct (spec_params _ _ _); [inversion H; reflexivity|discriminate]. }
+  exists (l0 :: l1 :: l2 :: l3 :: firstn n r). rewrite Hr. split; [|split].
+  - cbn [app]. rewrite firstn_skipn. reflexivity.
+  - rewrite !blen_cons, blen_firstn by (unfold n, blen in *; lia). unfold n. lia.
+  - lia.
+Qed.
+
+Theorem spec_startup_progress_thm b :
+  spec_decode_startup b = ONeedMore <->
+  (blen b < 4 \/ (8 <= startup_declared_len b /\ blen b < startup_declared_len b)).
+Proof.
+  destruct (bytes_case4 b) as [[Hs _]|(l0 & l1 & l2 & l3 & r & ->)].
+  { rewrite spec_decode_startup_short by assumption. tauto. }
+  unfold startup_declared_len. cbn [startup_header spec_decode_startup]. rewrite !blen_cons. pose proof (blen_nonneg r).
+  destruct (Z.ltb_spec (s32 l0 l1 l2 l3) 8) as [|H8]; [split; [discriminate|lia]|].
+  destruct (Z.ltb_spec (blen r) (s32 l0 l1 l2 l3 - 4)) as [|Hc]; [split; [intros _; right; lia|reflexivity]|].
+  split; [|lia]. intros C. exfalso.
+  destruct (firstn _ r) as [|v0 [|v1 [|v2 [|v3 pbody]]]]; try discriminate.
+  destruct (s32 v0 v1 v2 v3 =? P_SSLRequestCode); [discriminate|].
+  destruct (spec_params _ _ _); discriminate.
+Qed.
+
+(** a well-formed startup packet is outside every known class, hence (refinement) the reference decodes it *)
+Lemma enc_startup_not_known m rest :
+  wf_frontend m = true -> is_startup_kind m = true -> known_startup (enc_frontend m ++ rest) = false.
+Proof.
+  intros W K.
+  pose proof (decode_startup_encode_thm m rest W K) as D.
+  unfold known_startup, ks_neg_len, ks_short_wait, ks_short_panic, ks_short_overread, ks_ssl_tail, ks_params_misframed.
+  rewrite D. cbn [observe is_verr is_vmsg obs_rest_len negb].
+  destruct m as [v ps|p|q| |]; cbn [is_startup_kind] in K; try discriminate K.
+  - cbn [wf_frontend] in W.
+    apply andb_true_iff in W. destruct W as [W Wlen]. apply Z.ltb_lt in Wlen.
+    apply andb_true_iff in W. destruct W as [W _]. apply andb_true_iff in W. destruct W as [W _].
+    apply andb_true_iff in W. destruct W as [Wv Wssl]. apply negb_true_iff in Wssl.
+    cbn [enc_frontend].
+    pose proof (blen_nonneg (enc_params ps)) as Hp0. pose proof (blen_nonneg rest) as Hr0.
+    destruct (be32_shape (4 + (4 + blen (enc_params ps) + 1))) as (a & b & c & d & E & _ & _ & _ & _ & V). rewrite E.
+    rewrite as_i32_id in V by (apply in_i32_of_bounds; lia).
+    destruct (be32_shape v) as (a' & b' & c' & d' & E' & _ & _ & _ & _ & V'). rewrite E'.
+    rewrite (as_i32_id v Wv) in V'.
+    cbn [app startup_header]. rewrite V, V', Wssl.
+    rewrite !blen_cons, !blen_app, !blen_cons, blen_nil.
+    repeat match goal with
+    | |- context [?x <? ?y] => destruct (Z.ltb_spec x y); try lia
+    | |- context [?x <=? ?y] => destruct (Z.leb_spec x y); try lia
+    end; cbn [andb orb negb]; rewrite ?andb_false_r; try reflexivity.
+    all: match goal with |- context [?x =? ?y] => destruct (Z.eqb_spec x y); [reflexivity|lia] end.
+  - cbn [enc_frontend]. change (be32 8) with [0; 0; 0; 8]. change (be32 P_SSLRequestCode) with [4; 210; 22; 47].
+    cbn [app startup_header]. change (s32 0 0 0 8) with 8. change (s32 4 210 22 47) with 80877103.
+    rewrite !blen_cons. pose proof (blen_nonneg rest).
+    repeat match goal with
+    | |- context [?x <? ?y] => destruct (Z.ltb_spec x y); try lia
+    | |- context [?x <=? ?y] => destruct (Z.leb_spec x y); try lia
+    end; cbn [andb orb negb]; rewrite ?andb_false_r; reflexivity.
+Qed.
+
+Theorem spec_startup_roundtrip_thm m rest :
+  wf_frontend m = true -> is_startup_kind m = true -> spec_decode_startup (enc_frontend m ++ rest) = OMsg m rest.
+Proof.
+  intros W K.
+  pose proof (startup_refines_spec_thm _ (enc_startup_not_known m rest W K)) as A.
+  rewrite (decode_startup_encode_thm m rest W K) in A. cbn [observe] in A.
+  destruct (spec_decode_startup (enc_frontend m ++ rest)) as [m' rest'| |]; cbn [agrees] in A; try discriminate A.
+  inversion A; reflexivity.
+Qed.
+
 (** * Packaged statements (pinned by Props/C27.v) *)
 Lemma model_total_pin : forall oc b, fst (decode oc b) <> Fuel /\ fst (decode_startup b) <> Fuel.
 Proof. intros oc b. split; [exact (decode_never_fuel_thm oc b) | exact (decode_startup_never_fuel_thm b)]. Qed.
